@@ -16,7 +16,7 @@ from kq.report import RuleResult
 
 OSCODE = "kanata_parser::keys::OsCode"
 KEYCODE = "kanata_keyberon::key_code::KeyCode"
-U16_FROM_OSC = "<u16 as std::convert::From<kanata_parser::keys::OsCode>>::from"
+U16_FROM_OSC = "<u16 as core::convert::From<kanata_parser::keys::OsCode>>::from"
 KBDOUT = "kanata_state_machine::oskbd::linux::KbdOut::"
 
 
@@ -89,7 +89,7 @@ def rule_table(prog):
         # the arm builds OsCode::V then Some(V)
         vs = [st["rv"]["v"] for st in f.stmts(tb) if st["k"] == "assign" and st["rv"]["k"] == "agg" and st["rv"].get("adt") == OSCODE]
         somes = [st for st in f.stmts(tb) if st["k"] == "assign" and st["rv"]["k"] == "agg"
-                 and st["rv"].get("adt") == "std::option::Option" and st["rv"].get("v") == "Some"]
+                 and st["rv"].get("adt") == "core::option::Option" and st["rv"].get("v") == "Some"]
         res.inst("arm/%d" % val, variant=vs[0] if vs else None)
         ok = len(vs) == 1 and variants.get(vs[0]) == val and len(somes) == 1
         res.oblige(ok)
@@ -232,7 +232,7 @@ def rule_intercept(prog):
     f = prog.fn("kanata_state_machine::kanata::Kanata::event_loop")
     res.fn(f)
     sends = blocks_calling(f, f.reachable(), ["std::sync::mpsc::SyncSender::try_send", "std::sync::mpsc::Sender::send"])
-    contains = blocks_calling(f, f.reachable(), ["std::collections::HashSet::contains"])
+    contains = blocks_calling(f, f.reachable(), ["std::collections::hash::set::HashSet::contains"])
     scroll = blocks_calling(f, f.reachable(), ["kanata_state_machine::kanata::linux::handle_scroll"])
     reads = blocks_calling(f, f.reachable(), ["kanata_state_machine::oskbd::linux::KbdIn::read"])
     raws = blocks_calling(f, f.reachable(), [KBDOUT + "write_raw"])
@@ -260,7 +260,7 @@ def rule_intercept(prog):
                 ok_static = True
     res.inst("event_loop/static", mapped_keys_referenced=ok_static)
     # from the raw pass-through, the send is not reachable within the same iteration
-    read_blocks = [b for b, _ in reads] + [b for b, _ in blocks_calling(f, f.reachable(), ["std::iter::Iterator::next"])]
+    read_blocks = [b for b, _ in reads] + [b for b, _ in blocks_calling(f, f.reachable(), ["core::iter::traits::iterator::Iterator::next"])]
     for b, t in raws:
         r = f.reach_from(f.succs(b)[0] if f.succs(b) else b, avoid=read_blocks)
         for sb, st_ in sends:
